@@ -56,7 +56,8 @@ N_SOUP = {'quick': 700, 'thorough': 8000}    # soup strings (each cooked by both
 MAX_CHARS = {'quick': 60000, 'thorough': 400000}
 GUARD_CPU = 2.0                              # in-process CPU guard per cook (ITIMER_VIRTUAL seconds)
 GUARD_MAX = 4                                # guard firings per shard before the in-process workload is cut
-BUDGET_CPU = {'quick': 90, 'thorough': 900}    # CPU seconds of in-process cooking per shard (typical: 6 / 40)
+EVERY_OFFSET_CAP = 900                       # characters; longer printings are not truncated/mutated at every offset
+BUDGET_CPU = {'quick': 300, 'thorough': 1800}    # CPU seconds of in-process cooking per shard (typical: 6 / 40)
 STATE = {'slow': [], 'cut': False, 'n': 0, 'over': False}           # per worker process
 ANCHORS = ('parse_error', 'parse_block', 'parse_close', 'parse_params', 'parse_let_params', 'name_param')
 
@@ -328,10 +329,20 @@ def run_templates(ctx, E):
 
 def run_unclassified(ctx, E, pool):
     rng = ctx.rng
-    # truncation at every offset
-    for toks in pool[:N_TRUNC[ctx.tier]]:
-        for syn in U.SYNTAXES:
-            pr = U.print_tokens(toks, syn, rng)
+    # truncation at every offset; templates whose printing is longer than EVERY_OFFSET_CAP characters are passed
+    # over (work grows with the square of the length; the next template of the pool takes their place)
+    done = 0
+    rest = []
+    for toks in pool:
+        if done >= N_TRUNC[ctx.tier]:
+            rest.append(toks)
+            continue
+        prs = [(syn, U.print_tokens(toks, syn, rng)) for syn in U.SYNTAXES]
+        if any(pr is not None and len(pr[0]) > EVERY_OFFSET_CAP for syn, pr in prs):
+            ctx.count('truncation:templates passed over (longer than %d characters)' % EVERY_OFFSET_CAP)
+            continue
+        done += 1
+        for syn, pr in prs:
             if pr is None:
                 continue
             src = pr[0]
@@ -341,9 +352,16 @@ def run_unclassified(ctx, E, pool):
                     break
                 evaluate(ctx, E, {'group': 'trunc:' + syn, 'cls': U.CLASS_OF[syn], 'src': src[:cut]})
     # one character mutation at every position
-    for toks in pool[N_TRUNC[ctx.tier]:N_TRUNC[ctx.tier] + N_CHARMUT[ctx.tier]] or pool[:1]:
-        for syn in U.SYNTAXES:
-            pr = U.print_tokens(toks, syn, rng)
+    done = 0
+    for toks in rest or pool[:1]:
+        if done >= N_CHARMUT[ctx.tier]:
+            break
+        prs = [(syn, U.print_tokens(toks, syn, rng)) for syn in U.SYNTAXES]
+        if any(pr is not None and len(pr[0]) > EVERY_OFFSET_CAP for syn, pr in prs):
+            ctx.count('charmut:templates passed over (longer than %d characters)' % EVERY_OFFSET_CAP)
+            continue
+        done += 1
+        for syn, pr in prs:
             if pr is None:
                 continue
             ctx.count('charmut:templates')
